@@ -8,7 +8,7 @@ COQ_MODULE = "Runtime.ModelCq"; RUN_FN = "run"
 THEOREMS = ["C02_clock_monotone", "C02_now_is_event_time", "C02_dispatch_sorted_once", "C02_add_at_or_after_now_ok", "C02_add_before_now_panics", "C02_all_adds_ok_iff", "C02_run_reachable", "C02_run_total", "C02_run_over_cqueue_eq_run_over_spec", "C02_holds_over_cqueue", "C02_run_total_cq", "C02_holds_over_heap", "C02_heap_now_is_event_time", "C02_concurrent_build_irrelevant"]
 QUICK_N = 2500; THOROUGH_N = 150000
 CLAIM = dict(
-    text="Machine-checked (Coq 8.16, axiom-free) for every start time and every state a runtime can reach (before the run, between events, inside a handler, paused; any program, limit and step schedule -- via a transition system that over-approximates the runtime and is proved to contain every run of every script): the clock starts at the start time and no transition decreases it; the only writer is the dispatch of the next event, which sets it to exactly the timestamp the event was scheduled with before the handler runs; handled timestamps are non-decreasing and every accepted add_event is handled exactly once at its own time or still pending (multiset equation); add_event at or after now() always succeeds and makes the event pending, add_event_in never fails, add_event before now() is rejected with a panic and changes nothing, including before a non-zero start time; the event loop terminates. Stated for the code after fix: commits d335396 (event set starts at start_time) and f4552a6; Refuted/C02.v proves the pinned behaviour violates the statements (F2, F8). Tied to des::runtime by differential runs (extracted model vs real Runtime<App> over the real CQueue, handlers logging SimTime::now(), catch_unwind around every add_event) and an independent monitor on the implementation's outputs. COMPOSITION: Runtime/ModelCq.v is the same runtime threading the concrete calendar-queue state (cq_new_at n t start, add, peek_time, fetch_next, len, where the cqueue-backed FutureEventSet calls them); Runtime/Compose.v proves by forward simulation (queue part: C01's refinement relation) that for all n,t>=1 it prints exactly what the model over the specification prints (run_over_cqueue_eq_run_over_spec), and the headline statements are restated and proved for the runtime over the calendar queue for every queue parameterisation (*_cq theorems); the extracted runner executes this composed model with the script's (n,t).",
+    text="Machine-checked (Coq 8.16, axiom-free) for every start time and every state a runtime can reach (before the run, between events, inside a handler, paused; any program, limit and step schedule -- via a transition system that over-approximates the runtime and is proved to contain every run of every script): the clock starts at the start time and no transition decreases it; the only writer is the dispatch of the next event, which sets it to exactly the timestamp the event was scheduled with before the handler runs; handled timestamps are non-decreasing and every accepted add_event is handled exactly once at its own time or still pending (multiset equation); add_event at or after now() always succeeds and makes the event pending, add_event_in never fails, add_event before now() is rejected with a panic and changes nothing, including before a non-zero start time; the event loop terminates. Stated for the code after fix: commits d335396 (event set starts at start_time) and f4552a6; Refuted/C02.v proves the pinned behaviour violates the statements (F2, F8). Tied to des::runtime by differential runs (extracted model vs real Runtime<App> over the real CQueue, handlers logging SimTime::now(), catch_unwind around every add_event) and an independent monitor on the implementation's outputs. COMPOSITION: Runtime/ModelCq.v is the same runtime threading the concrete calendar-queue state (cq_new_at n t start, add, peek_time, fetch_next, len, where the cqueue-backed FutureEventSet calls them); Runtime/Compose.v proves by forward simulation (queue part: C01's refinement relation) that for all n,t>=1 it prints exactly what the model over the specification prints (run_over_cqueue_eq_run_over_spec), and the headline statements are restated and proved for the runtime over the calendar queue for every queue parameterisation (*_cq theorems); the extracted runner executes this composed model with the script's (n,t). PARTS: `--part time` proves the representation of simulated time faithful: SimTime/Duration as the (secs: u64, nanos: u32) pair with std's carry/borrow/range checks, the two-atomics clock and the start-time boundary of CQueue::new_at are modelled in coq/Time, every script over the pair-level interpreter is proved to print what plain nanosecond arithmetic on N prints (C02_time_as_nanoseconds_is_faithful), and the pair-level model is run against the real SimTime over the whole 2^64 s range; the heap part of C01 instantiates the clock clauses for the BinaryHeap backend (C02_holds_over_heap).",
     note="Trusted: Coq kernel; extraction cross-checked in-Coq each run; harness/generators; event set = C01's specification, composed with the calendar-queue model in Coq (Runtime/Compose.v); scripted handlers (add_event_in / add_event actions under a global budget); usize/Duration overflow out of scope.",
     technique="Coq invariant proof over a transition system + differential correspondence check",
     design="6/C02")
